@@ -1195,3 +1195,69 @@ def slow_start_family(report, prop="C09", label="one-at-a-time-drain"):
     report.obligation("corr:" + label, "correspondence", ok, f"{len(scripts)} driven resumed sessions, every response compared")
     report.obligation("mon:" + label, "monitor", mon, "at most one acknowledgement-requiring operation outstanding on the resumed connection until the interrupted ones are resolved")
     return ok and mon
+
+
+def timeout_while_written_family(report, prop="C18", label="timeout-of-operation-being-written"):
+    """the ack timeout of a QoS 2 publish expires while its PUBREL is the operation being written (seated, the buffer has no
+    room yet): that pass must leave the record alone, and the first service call after the PUBREL is out applies it - the
+    operation does not get a fresh T from the PUBREL's write."""
+    from gv import harness_batch, resp_fields
+    scripts = []
+    for v in ("5", "311"):
+        connack = "x20020000" if v == "311" else "x2003000000"
+        for T in (10, 500):
+            for cap, pre in ((6, 4), (4, 1), (7, 6), (5, 2)):
+                for extra in (0, 1, 2):
+                    late = T + 2
+                    sc = [f"eng.new v={v} policy=all drain=none pingto=100000 resolver=none rmax=2 | ka=0 cid=x636c6b rm=10",
+                          "eng.open t=0 deadline=30000", "eng.svc t=0 cap=4096 prefill=0", "eng.wc t=0", f"eng.data t=0 b={connack}",
+                          f"eng.pub t=0 timeout={T} | publish pid=0 topic=x742f30 qos=2 retain=0 payload=x0000",
+                          "eng.svc t=0 cap=4096 prefill=0", "eng.wc t=0", "eng.data t=1 b=x50020001",
+                          f"eng.svc t=2 cap={cap} prefill={pre}"]          # the PUBREL is seated, nothing of it fits
+                    sc += [f"eng.svc t={late + k} cap={cap} prefill={pre}" for k in range(extra + 1)]   # the deadline passes while it waits
+                    sc += [f"eng.svc t={late + extra + 1} cap=4096 prefill=0", f"eng.wc t={late + extra + 1}", f"eng.svc t={late + extra + 2} cap=4096 prefill=0", "eng.snap"]
+                    scripts.append((sc, T, late + extra + 2))
+    reqs, starts = [], []
+    for sc, *_ in scripts:
+        starts.append(len(reqs))
+        reqs.append("session.reset")
+        reqs += sc
+    impl = harness_batch(reqs)
+    model = driver_batch(reqs)
+    ok, mon, bad, mbad, judged = True, True, 0, 0, 0
+    for k, st in enumerate(starts):
+        end = starts[k + 1] if k + 1 < len(starts) else len(reqs)
+        sc, T, last = scripts[k]
+        report.case("|".join(reqs[st + 1:end]))
+        report.traces_validated += 1
+        for i in range(st, end):
+            if canon(impl[i]) != canon(model[i]):
+                ok = False
+                if bad < 4:
+                    report.add_finding(Finding(prop, "corr:" + label, {"clause": "model-vs-impl", "verb": reqs[i].split(" ")[0]},
+                                               "timeout-while-written scenario: implementation and model disagree", reqs[st + 1:i + 1] + ["# impl:  " + impl[i][:300], "# model: " + model[i][:300]], has_input=False))
+                bad += 1
+                break
+        seated, _ = resp_fields(impl[st + 10])
+        comps = ",".join(resp_fields(impl[i])[0].get("comps", "") for i in range(st + 10, end))
+        early = ",".join(resp_fields(impl[i])[0].get("comps", "") for i in range(st + 1, st + 11))
+        if "AckTimeout" in early:
+            mon = False
+            if mbad < 6:
+                report.add_finding(Finding(prop, "mon:" + label, {"clause": "timeout-before-deadline"}, f"AckTimeout delivered before {T} ms had passed since the PUBLISH was written", reqs[st + 1:st + 11]))
+            mbad += 1
+        elif seated.get("bytes", "x") == "x":
+            judged += 1
+            if "AckTimeout" not in comps:
+                mon = False
+                if mbad < 6:
+                    report.add_finding(Finding(prop, "mon:" + label, {"clause": "expired-timeout-lost-while-written"},
+                                               f"the publish was completely written at 0 ms with an ack timeout of {T} ms; its PUBREL waited for buffer room across the deadline and went out at {last - 1} ms; "
+                                               f"the service calls up to {last} ms deliver {comps.strip(',') or 'nothing'}: the expired timeout is not applied (the operation got a fresh deadline from the PUBREL's write)",
+                                               reqs[st + 1:end] + ["# impl: " + impl[end - 2][:200]]))
+                mbad += 1
+    report.count(label + ".scenarios", len(scripts))
+    report.count(label + ".judged", judged)
+    report.obligation("corr:" + label, "correspondence", ok, f"{len(scripts)} scripted connections, every response compared")
+    report.obligation("mon:" + label, "monitor", mon and judged > 0, f"{judged} histories in which the deadline passes while the PUBREL is seated: AckTimeout is delivered by the first service after the PUBREL is out, never before the deadline")
+    return ok and mon
